@@ -868,6 +868,181 @@ theorem history_statement_holds : HistoryStatement := by
 /-- The old witness now satisfies the statement. -/
 example : run [.add 0 10, .sub 5 5] [] = [⟨0, 10⟩] := by decide
 
+/-! ### int64 bounds are preserved (no hypothesis on reachable states) -/
+
+/-- Every stored endpoint lies in `[lo, hi]`. -/
+def Bnd (lo hi : Int) (l : RS) : Prop := ∀ r ∈ l, lo ≤ r.s ∧ r.e ≤ hi
+
+theorem bnd_cons {lo hi : Int} {r : Rg} {l : RS} : Bnd lo hi (r :: l) ↔ (lo ≤ r.s ∧ r.e ≤ hi) ∧ Bnd lo hi l := by
+  simp [Bnd]
+
+theorem bnd_append {lo hi : Int} {a b : RS} : Bnd lo hi (a ++ b) ↔ Bnd lo hi a ∧ Bnd lo hi b := by
+  simp only [Bnd, List.mem_append]
+  exact ⟨fun h => ⟨fun r hr => h r (Or.inl hr), fun r hr => h r (Or.inr hr)⟩,
+    fun h r hr => hr.elim (h.1 r) (h.2 r)⟩
+
+theorem bnd_take {lo hi : Int} {l : RS} (h : Bnd lo hi l) (k : Nat) : Bnd lo hi (l.take k) :=
+  fun r hr => h r (List.mem_of_mem_take hr)
+
+theorem bnd_drop {lo hi : Int} {l : RS} (h : Bnd lo hi l) (k : Nat) : Bnd lo hi (l.drop k) :=
+  fun r hr => h r (List.mem_of_mem_drop hr)
+
+theorem bnd_removeranges {lo hi : Int} {l : RS} (h : Bnd lo hi l) (i j : Nat) :
+    Bnd lo hi (removeranges l i j) := by
+  unfold removeranges
+  split
+  · exact h
+  · exact bnd_append.2 ⟨bnd_take h i, bnd_drop h j⟩
+
+theorem coalesce_le (hi : Int) (rest : RS) : ∀ e, e ≤ hi → (∀ r ∈ rest, r.e ≤ hi) → (coalesce e rest).1 ≤ hi := by
+  induction rest with
+  | nil => intro e he _; simpa [coalesce] using he
+  | cons r rest ih =>
+    intro e he hr
+    unfold coalesce
+    split
+    · exact ih _ (by have := hr r List.mem_cons_self; split <;> omega)
+        (fun q hq => hr q (List.mem_cons_of_mem _ hq))
+    · exact he
+
+theorem bnd_addLoop (lo hi st en : Int) (h1 : lo ≤ st) (h2 : en ≤ hi) (l : RS) :
+    Bnd lo hi l → Bnd lo hi (addLoop st en l) := by
+  induction l with
+  | nil => intro _; unfold addLoop; exact bnd_cons.2 ⟨⟨h1, h2⟩, fun _ h => by simp at h⟩
+  | cons r rest ih =>
+    intro hb
+    obtain ⟨hr, hrest⟩ := bnd_cons.1 hb
+    unfold addLoop
+    split
+    · exact bnd_cons.2 ⟨⟨h1, h2⟩, hb⟩
+    · split
+      · exact bnd_cons.2 ⟨hr, ih hrest⟩
+      · have hs' : lo ≤ (if st < r.s then st else r.s) := by split <;> omega
+        simp only
+        split
+        · exact bnd_cons.2 ⟨⟨hs', hr.2⟩, hrest⟩
+        · apply bnd_removeranges
+          exact bnd_cons.2 ⟨⟨hs', coalesce_le hi rest en h2 (fun q hq => (hrest q hq).2)⟩, hrest⟩
+
+/-- **add keeps every endpoint within the bounds of its arguments and of the old set.** -/
+theorem bnd_add (lo hi : Int) (l : RS) (st en : Int) (h : Bnd lo hi l) (h1 : lo ≤ st) (h2 : en ≤ hi) :
+    Bnd lo hi (add l st en) := by
+  unfold add; split
+  · exact h
+  · exact bnd_addLoop lo hi st en h1 h2 l h
+
+theorem bnd_subLoop (lo hi st en : Int) (h1 : lo ≤ en) (h2 : st ≤ hi) (l : RS) :
+    ∀ (i : Nat) (rf : Option Nat) (rt : Nat), Bnd lo hi l → Bnd lo hi (subLoop st en l i rf rt).l := by
+  induction l with
+  | nil => intro i rf rt h; simpa [subLoop] using h
+  | cons r rest ih =>
+    intro i rf rt hb
+    obtain ⟨hr, hrest⟩ := bnd_cons.1 hb
+    unfold subLoop
+    split
+    · exact hb
+    · split
+      · exact bnd_cons.2 ⟨hr, ih _ _ _ hrest⟩
+      · split
+        · exact bnd_cons.2 ⟨hr, ih _ _ _ hrest⟩
+        · split
+          · exact bnd_cons.2 ⟨⟨h1, hr.2⟩, ih _ _ _ hrest⟩
+          · split
+            · exact bnd_cons.2 ⟨⟨hr.1, h2⟩, ih _ _ _ hrest⟩
+            · exact bnd_cons.2 ⟨⟨hr.1, h2⟩, bnd_cons.2 ⟨⟨h1, hr.2⟩, hrest⟩⟩
+
+/-- **sub keeps every endpoint within the bounds of its arguments and of the old set.** -/
+theorem bnd_sub (lo hi : Int) (l : RS) (st en : Int) (h : Bnd lo hi l) (h1 : lo ≤ en) (h2 : st ≤ hi) :
+    Bnd lo hi (sub l st en) := by
+  unfold sub; split
+  · exact h
+  · have hq := bnd_subLoop lo hi st en h1 h2 l 0 none 0 h
+    simp only
+    split
+    · exact hq
+    · split
+      · exact hq
+      · exact bnd_removeranges hq _ _
+
+theorem inBounds_iff_bnd (l : RS) : InBounds l ↔ Bnd (-9223372036854775808) 9223372036854775807 l := Iff.rfl
+
+/-- The arguments of an operation are int64 values. -/
+def I64 (x : Int) : Prop := -9223372036854775808 ≤ x ∧ x ≤ 9223372036854775807
+
+def OpI64 : Op → Prop
+  | .add st en => I64 st ∧ I64 en
+  | .sub st en => I64 st ∧ I64 en
+
+theorem inBounds_add (l : RS) (st en : Int) (h : InBounds l) (h1 : I64 st) (h2 : I64 en) :
+    InBounds (add l st en) := bnd_add _ _ l st en h h1.1 h2.2
+
+theorem inBounds_sub (l : RS) (st en : Int) (h : InBounds l) (h1 : I64 st) (h2 : I64 en) :
+    InBounds (sub l st en) := bnd_sub _ _ l st en h h2.1 h1.2
+
+theorem bnd_run (lo hi : Int) (ops : List Op) : ∀ l, Bnd lo hi l →
+    (∀ op ∈ ops, match op with | .add st en => lo ≤ st ∧ en ≤ hi | .sub st en => lo ≤ en ∧ st ≤ hi) →
+    Bnd lo hi (run ops l) := by
+  induction ops with
+  | nil => intro l h _; exact h
+  | cons op ops ih =>
+    intro l h hops
+    show Bnd lo hi (run ops (applyOp l op))
+    apply ih _ _ (fun o ho => hops o (List.mem_cons_of_mem _ ho))
+    have := hops op List.mem_cons_self
+    cases op with
+    | add st en => exact bnd_add lo hi l st en h this.1 this.2
+    | sub st en => exact bnd_sub lo hi l st en h this.1 this.2
+
+/-- **Every state reachable with int64 arguments stores int64 endpoints** (no order needed). -/
+theorem inBounds_run (ops : List Op) (h : ∀ op ∈ ops, OpI64 op) : InBounds (run ops []) := by
+  apply bnd_run _ _ ops [] (fun _ hr => by simp at hr)
+  intro op hop
+  have := h op hop
+  cases op with
+  | add st en => exact ⟨this.1.1, this.2.2⟩
+  | sub st en => exact ⟨this.2.1, this.1.2⟩
+
+/-- **min/max/end on every reachable state** (histories of ranges with int64 arguments):
+`max_end_spec` without the `InBounds` hypothesis. -/
+theorem max_end_reachable (ops : List Op) (h : ∀ op ∈ ops, Ordered op) (h64 : ∀ op ∈ ops, OpI64 op) :
+    (run ops [] = [] → Model.Rangeset.max (run ops []) = 0 ∧ end_ (run ops []) = 0) ∧
+    (run ops [] ≠ [] → end_ (run ops []) = Model.Rangeset.max (run ops []) + 1 ∧
+      Mem (run ops []) (Model.Rangeset.max (run ops [])) ∧
+      ∀ x, Mem (run ops []) x → x ≤ Model.Rangeset.max (run ops [])) :=
+  max_end_spec _ (history_correct ops h).1 (inBounds_run ops h64)
+
+theorem sizeZ_le (hi : Int) (l : RS) : ∀ (b lo : Int), Chain b l → (∀ r ∈ l, lo ≤ r.s ∧ r.e ≤ hi) → lo ≤ hi →
+    sizeZ l ≤ hi - lo := by
+  induction l with
+  | nil => intro b lo _ _ h; simp only [sizeZ]; omega
+  | cons r rest ih =>
+    intro b lo hc hb hlo
+    have hr := hb r List.mem_cons_self
+    have := ih r.e r.e hc.2.2 (fun q hq =>
+      ⟨by have := (chain_bound_of_mem hc.2.2 hq).1; omega, (hb q (List.mem_cons_of_mem _ hq)).2⟩) hr.2
+    simp only [sizeZ]; omega
+
+/-- **size on every reachable state**: always the number of elements modulo 2^64 (Go's int64 sum) … -/
+theorem size_reachable (ops : List Op) (h : ∀ op ∈ ops, Ordered op) :
+    size (run ops []) = wrap64 ((elems (run ops [])).length : Int) ∧
+    (∀ x, x ∈ elems (run ops []) ↔ specRun ops (fun _ => False) x) ∧
+    (elems (run ops [])).Pairwise (· < ·) := by
+  obtain ⟨hw, hm⟩ := history_correct ops h
+  obtain ⟨c1, c2, c3⟩ := size_card _ hw
+  exact ⟨by unfold size; rw [c1], fun x => by rw [c2 x, hm x], c3⟩
+
+/-- … and exactly the number of elements when all arguments are non-negative int64 values (every
+use in package quic: packet numbers, stream offsets, connection-ID sequence numbers). -/
+theorem size_reachable_nonneg (ops : List Op) (h : ∀ op ∈ ops, Ordered op)
+    (hnn : ∀ op ∈ ops, match op with
+      | .add st en => 0 ≤ st ∧ en ≤ 9223372036854775807
+      | .sub st en => 0 ≤ en ∧ st ≤ 9223372036854775807) :
+    size (run ops []) = ((elems (run ops [])).length : Int) := by
+  obtain ⟨hw, _⟩ := history_correct ops h
+  have hb : Bnd 0 9223372036854775807 (run ops []) := bnd_run 0 _ ops [] (fun _ hr => by simp at hr) hnn
+  obtain ⟨b, hc⟩ := hw
+  exact size_eq_card _ ⟨b, hc⟩ (by have := sizeZ_le _ _ b 0 hc hb (by omega); omega)
+
 /-! ### non-vacuity -/
 
 example : WF [⟨0, 5⟩, ⟨7, 9⟩] := ⟨-1, by decide, by decide, by decide, by decide, trivial⟩
